@@ -173,6 +173,11 @@ def query_encoding(rep, ex: Explorer, cls=CI):
         vw = view(p.state, csp)
         n += 1
         if EV is None or EF is None:
+            # (a truth value the path did decide but that the analysis cannot tie to one of the two families - a list rebuilt
+            # at a computed position, say - may be that very emptiness: no verdict then)
+            other = [k for k, v in p.decisions if k[0] in ("truthy", "empty", "cmp") and k not in (("empty", side["v"]), ("empty", side["f"])) and "log-enabled" not in repr(k)]
+            if other:
+                raise AnalysisError(f"{site}: the result depends on {show_pred(other[0])[:120]}, which the analysis cannot relate to the emptiness of the query's two families")
             # the result is fixed on this path although an emptiness it depends on was not consulted: it must be right for
             # every value of the unconsulted one
             def kind(v):
